@@ -54,7 +54,8 @@ def parseIterField (s : String) : Option (Bytes × Bool) :=
   | [k, _t, v] => do some (← hexDecode k, v != "PANIC" && v != "HANG")
   | _ => none
 
-def parsePoint (toks : List String) : Option PointObs :=
+/-- the observed point, and whether `Fields()` returned without an error -/
+def parsePoint (toks : List String) : Option (PointObs × Bool) :=
   match toks with
   | [key, name, tags, time, _raw, iter, fv] =>
     match hexDecode key, time.toInt? with
@@ -62,9 +63,10 @@ def parsePoint (toks : List String) : Option PointObs :=
       let nm := hexDecode name
       let tg := Wire.parseTags tags
       let its := (splitComma iter).mapM parseIterField
-      some { key := k, name := nm.getD [], tags := tg.getD [], time := t
-             fieldKeys := (its.getD []).map (·.1)
-             clean := nm.isSome && tg.isSome && its.isSome && (its.getD []).all (·.2) && fv == "ok" }
+      some ({ key := k, name := nm.getD [], tags := tg.getD [], time := t
+              fieldKeys := (its.getD []).map (·.1)
+              clean := nm.isSome && tg.isSome && its.isSome && (its.getD []).all (·.2) && fv != "PANIC" },
+            fv == "ok")
     | _, _ => none
   | _ => none
 
@@ -76,7 +78,7 @@ def splitBar (toks : List String) : List (List String) :=
     | g :: gs => (t :: g) :: gs) [[]]
 
 /-- `none`: not an answer of the protocol; `some none`: panic / timeout / crash -/
-def parsePPAns (ans : String) : Option (Option (List PointObs × Option Bytes)) :=
+def parsePPAns (ans : String) : Option (Option (List (PointObs × Bool) × Option Bytes)) :=
   if ans.startsWith "panic" || ans == "timeout" || ans == "crash" || ans == "skipped" then some none else
   match splitBar (tokens ans) with
   | [n, err] :: groups => do
@@ -98,11 +100,18 @@ def judge (toks : List String) (ans : String) : Verdict :=
   | some (.pp prec dt buf) =>
     match parsePPAns ans with
     | none => Verdict.fail ("bad-answer:" ++ clip (ans.replace " " "_"))
-    | some res =>
+    | some res0 =>
+      let res := res0.map fun r => (r.1.map (·.1), r.2)
       let o : Obs := ⟨prec, dt, buf, res⟩
       match res with
       | none => Verdict.fail ("does-not-return:" ++ clip ("_".intercalate toks ++ "=>" ++ ans))
       | some (pts, err) =>
+        -- also noted (not a clause of the property text, hence not in `holdsOn`): an accepted
+        -- point whose `Fields()` returns an error
+        if holdsOn o && !(res0.map fun r => r.1.all (·.2)).getD true then
+          Verdict.fail ("accepted-point-fields-unreadable:" ++ clip ("_".intercalate toks))
+            ["pp:fields-unreadable"]
+        else
         let tg := ["pp:points=" ++ toString (min pts.length 3), if err.isSome then "pp:error" else "pp:noerror",
                    "lines=" ++ toString (min (candidateLines buf).length 4)]
         if holdsOn o then { ok := true, nontrivial := !(candidateLines buf).isEmpty, tags := tg }
@@ -110,8 +119,14 @@ def judge (toks : List String) (ans : String) : Verdict :=
           Verdict.fail ("malformed-point-accepted:" ++ clip ("_".intercalate toks)) tg
         else Verdict.fail ("error-does-not-name-rejected-lines:" ++ clip ("_".intercalate toks)) tg
 
+/-- all ops of the case; a failure that is not the "also noted" kind is reported first, so that
+    it cannot hide behind a known finding of the same case -/
 def oracle (obs : List (List String × String)) : Verdict :=
-  obs.foldl (fun v (toks, ans) => v.and (judge toks ans)) (Verdict.pass false)
+  let vs := obs.map fun (toks, ans) => judge toks ans
+  let all := vs.foldl Verdict.and (Verdict.pass false)
+  match vs.find? (fun v => !v.ok && !v.reason.startsWith "accepted-point-fields-unreadable") with
+  | some v => { all with reason := v.reason }
+  | none => all
 
 def driver : Driver Unit := { init := (), step := step, oracle := oracle }
 
